@@ -499,15 +499,17 @@ Fixpoint node_equal (x y : node) : bool :=
   | _ => true
   end.
 
-(* the weight that decreases along factor's recursion: runes of literals and the operators other than
+(* the weight that decreases along factor's recursion: the runes of literals and the operators other than
    concatenation, alternation and the empty match *)
 Fixpoint weight (re : node) : nat :=
   let '(Node _ o _ subs runes c _ _ _ _) := re in
   let below := (fix go (l : list node) : nat := match l with [] => O | s :: t => (weight s + go t)%nat end) subs in
   match o with
   | OpLiteral => length runes
-  | OpEmptyMatch | OpConcat | OpAlternate => below
-  | _ => S below
+  | OpEmptyMatch => O
+  | OpConcat | OpAlternate => below
+  | OpCapture | OpStar | OpPlus | OpQuest | OpRepeat => S below
+  | _ => 1%nat
   end.
 Definition weights (l : list node) : nat := fold_right (fun n a => (weight n + a)%nat) O l.
 
@@ -518,8 +520,10 @@ Fixpoint weight_add (re : node) (acc : nat) : nat :=
                   match l with [] => acc | s :: t => go t (weight_add s acc) end) subs acc in
   match o with
   | OpLiteral => (length runes + acc)%nat
-  | OpEmptyMatch | OpConcat | OpAlternate => below
-  | _ => S below
+  | OpEmptyMatch => acc
+  | OpConcat | OpAlternate => below
+  | OpCapture | OpStar | OpPlus | OpQuest | OpRepeat => S below
+  | _ => S acc
   end.
 Definition weights_add (l : list node) : nat := fold_left (fun a n => weight_add n a) l O.
 
@@ -1011,8 +1015,8 @@ Fixpoint class_loop (fuel : nat) (fold : bool) (t : str) (first : bool) (class :
       | Ok (lo, t1) =>
         let single := class_loop fuel' fold t1 false (if fold then append_folded_range class lo lo else append_range class lo lo) in
         match t1 with
-        | 45 :: ((c :: _) as t2) =>
-          if c =? 93 then single
+        | d :: ((c :: _) as t2) =>
+          if negb (d =? 45) || (c =? 93) then single
           else match class_char t2 with
                | Err e => Err e
                | OutOfFuel => OutOfFuel
@@ -1025,8 +1029,9 @@ Fixpoint class_loop (fuel : nat) (fold : bool) (t : str) (first : bool) (class :
       end in
     let escapes : res (cbuild * str) :=
       match t with
-      | 92 :: c :: t2 =>
-        if (c =? 112) || (c =? 80) then
+      | b :: c :: t2 =>
+        if negb (b =? 92) then range
+        else if (c =? 112) || (c =? 80) then
           match lex_unicode_class fold class t with
           | Ok (class', rest) => class_loop fuel' fold rest false class'
           | r => r
@@ -1037,25 +1042,31 @@ Fixpoint class_loop (fuel : nat) (fold : bool) (t : str) (first : bool) (class :
              end
       | _ => range
       end in
+    let named : res (cbuild * str) :=
+      match t with
+      | b :: c :: ((_ :: _) as t2) =>
+        if (b =? 91) && (c =? 58) then
+          match index_pair 58 93 t2 with
+          | Some i =>
+            match posix_group (firstn i t2) with
+            | Some g => class_loop fuel' fold (skipn (i + 2) t2) false (append_group fold class g)
+            | None => Err ErrCharRange
+            end
+          | None => escapes
+          end
+        else escapes
+      | _ => escapes
+      end in
     match t with
-    | 93 :: rest => if first then range else Ok (class, rest)
-    | 91 :: 58 :: ((_ :: _) as t2) =>
-      match index_pair 58 93 t2 with
-      | Some i =>
-        match posix_group (firstn i t2) with
-        | Some g => class_loop fuel' fold (skipn (i + 2) t2) false (append_group fold class g)
-        | None => Err ErrCharRange
-        end
-      | None => escapes
-      end
-    | _ => escapes
+    | b :: rest => if (b =? 93) && negb first then Ok (class, rest) else if b =? 93 then range else named
+    | [] => range
     end
   end.
 
 (* parseClass up to the push: s begins with '[' *)
 Definition lex_class (fold : bool) (s : str) : res (cls * str) :=
   let t := tl s in
-  let '(negated, t) := match t with 94 :: t' => (true, t') | _ => (false, t) end in
+  let '(negated, t) := match t with c :: t' => if c =? 94 then (true, t') else (false, t) | [] => (false, t) end in
   match class_loop (S (length t)) fold t true [] with
   | Ok (class, rest) =>
     let c := clean_class (cb_done class) in
@@ -1111,23 +1122,25 @@ Definition lex_perl_flags (flags : Z) (s : str) : res (token * str) :=
       else if valid_capture_name name then Ok (TNamed name, skipn (S e) s)
       else Err ErrNamedCapture
     end in
+  let plain := flags_loop (skipn 2 s) flags false false in
   match s with
-  | _ :: _ :: 80 :: 60 :: _ :: _ => named 4%nat
-  | _ :: _ :: 60 :: _ :: _ => named 3%nat
-  | _ => flags_loop (skipn 2 s) flags false false
+  | _ :: _ :: c2 :: c3 :: rest =>
+    if (c2 =? 80) && (c3 =? 60) then match rest with _ :: _ => named 4%nat | [] => plain end
+    else if c2 =? 60 then named 3%nat
+    else plain
+  | _ => plain
   end.
 
-(* the text of one turn of the parse loop: t is not empty *)
-Definition lex (flags : Z) (t : str) : res (token * str) :=
+(* the text of one turn of the parse loop: t = b :: t' *)
+Definition lex (flags : Z) (b : Z) (t' : str) : res (token * str) :=
+  let t := b :: t' in
   let fold := has flags fFoldCase in
-  let lazy_of (after : str) : bool * str := match after with 63 :: a => (true, a) | _ => (false, after) end in
-  match t with
-  | [] => Err ErrInternal
-  | b :: t' =>
+  let lazy_of (after : str) : bool * str :=
+    match after with c :: a => if c =? 63 then (true, a) else (false, after) | [] => (false, after) end in
     if b =? 40 then
       match t' with
-      | 63 :: _ => lex_perl_flags flags t
-      | _ => Ok (TLParen, t')
+      | c :: _ => if c =? 63 then lex_perl_flags flags t else Ok (TLParen, t')
+      | [] => Ok (TLParen, t')
       end
     else if b =? 124 then Ok (TBar, t')
     else if b =? 41 then Ok (TRParen, t')
@@ -1186,8 +1199,7 @@ Definition lex (flags : Z) (t : str) : res (token * str) :=
          | Ok (c, rest) => Ok (TLit c, rest)
          | Err e => Err e
          | OutOfFuel => OutOfFuel
-         end
-  end.
+         end.
 
 (* ---------------------------------------------------------------- what the parser does with a token *)
 
@@ -1259,8 +1271,8 @@ Fixpoint parse_loop (fuel : nat) (t : str) (last_repeat : bool) (p : pst) : res 
   | S fuel' =>
     match t with
     | [] => Ok p
-    | _ =>
-      match lex (p_flags p) t with
+    | b :: t' =>
+      match lex (p_flags p) b t' with
       | Err e => Err e
       | OutOfFuel => OutOfFuel
       | Ok (tok, rest) =>
